@@ -1,5 +1,7 @@
 SPECIFICATION Spec
-CONSTANT Prop = "C15"
+CONSTANTS
+  Prop = "C15"
+  Chunk = 250
 INVARIANT RecordOK
 POSTCONDITION TraceAccepted
 CHECK_DEADLOCK FALSE
